@@ -324,6 +324,8 @@ func rulesC12(c *Ctx) {
 	}
 
 	// ---- clone first ----
+	// the clone RewriteFields works on must carry every field of every node (a wildcard without its ::field / ::tag restriction expands to more columns)
+	importRules(c, rulesC14, "C14.", "C12.clone-", func(r string) bool { return r == "C14.fields" })
 	c.Rule("C12.clonefirst", "RewriteFields works on a clone: no store reaches memory of its receiver or of the mapper")
 	readonly(c, "C12.clonefirst", func(f *types.Func) bool { return FuncName(f) == "(*SelectStatement).RewriteFields" })
 	callScopeC12(c)
